@@ -8,7 +8,7 @@
 From Coq Require Import List NArith ZArith Bool Lia Permutation.
 From PM Require Import Base.Bytes Base.Outcome Gen.GenConsts Model.ScriptAst Model.Enqueue Model.Script Model.Device Model.DevHarness
                        Model.Client Model.CliWorld Model.Daemon Spec.Proto
-                       Proofs.ClientProofs Proofs.ClientProto Proofs.ClientStream Proofs.ClientStreamQ Proofs.DeviceInv Proofs.DeviceRun Proofs.DeviceInvG Proofs.DeviceRunG Proofs.DaemonLedger Proofs.DaemonFrame.
+                       Proofs.ClientProofs Proofs.ClientProto Proofs.ClientStream Proofs.ClientStreamQ Proofs.DeviceInv Proofs.DeviceRun Proofs.DeviceInvG Proofs.DeviceRunG Proofs.DeviceSlots Proofs.DaemonLedger Proofs.DaemonFrame Proofs.DaemonSlots.
 Import ListNotations.
 Local Open Scope Z_scope.
 
@@ -266,7 +266,8 @@ Section P.
     dp_devs : DevsInv (dm_devs st);
     dp_nodup : NoDup (ids st);
     dp_cinv : CInv [] (dm_devs st) (dm_clients st);
-    dp_qseq : Forall (fun id => 1 <= id < dm_seq st) (qall (dm_devs st) ++ ids st)
+    dp_qseq : Forall (fun id => 1 <= id < dm_seq st) (qall (dm_devs st) ++ ids st);
+    dp_slots : SInv st
   }.
 
   Lemma dev_loop_inv n : forall now st i pins tmo acc,
@@ -285,6 +286,8 @@ Section P.
       assert (Hd : DInvRG compress d) by (pose proof (dp_devs _ I) as H; rewrite Forall_forall in H; apply H; eapply nth_error_In; exact En).
       destruct Hd as [Hd Hrc].
       pose proof (post_poll_one_inv_pre rmatch compress short_circuit now d (dm_store st) tmo pin Hd Hp Hrc) as H1.
+      assert (Hcbd : ArgsCb d) by (pose proof (si_cb _ (dp_slots _ I)) as H; rewrite Forall_forall in H; apply H; eapply nth_error_In; exact En).
+      pose proof (post_poll_one_slots rmatch compress short_circuit now d (dm_store st) tmo pin Hd Hcbd Hp Hrc) as HS.
       destruct (post_poll_one rmatch compress short_circuit now d (dm_store st) tmo pin) as [[[[d' store'] tmo'] evs]| | | |]; try contradiction; [|exact Logic.I].
       destruct H1 as [SP TK].
       match goal with |- context [route_all ranged_sorted ?s evs] => set (st1 := s) end.
@@ -304,7 +307,14 @@ Section P.
           pose proof (dp_qseq _ I) as Hq. rewrite Forall_forall in *. intros x Hx. apply Hq.
           apply in_app_or in Hx. apply in_or_app. destruct Hx as [Hx|Hx]; [left|right; exact Hx].
           eapply qall_upd_incl; [exact En| |exact Hx].
-          rewrite <- (tg_fifo _ _ _ _ _ _ _ _ _ SP). apply incl_appr, incl_refl. }
+          rewrite <- (tg_fifo _ _ _ _ _ _ _ _ _ SP). apply incl_appr, incl_refl.
+        - assert (Hl2 : length (dm_clients st2) = length (dm_clients st)).
+          { pose proof (f_equal (@length Z) A1) as Hl. unfold ids in Hl. rewrite !map_length in Hl. rewrite Hl. reflexivity. }
+          apply (SInv_dev_step st st2 i d d' (dp_slots _ I) En); [rewrite A4; exact HS|rewrite A2; reflexivity|exact Hl2| |].
+          + intros p x Hx. exact (route_all_cmd ranged_sorted evs st1 st2 E2 p x Hx).
+          + intros x' Hx' Hs' Hin. unfold CInv in C2. rewrite Forall_forall in C2. destruct (C2 x' Hx') as [Kx' Px']. cbn [app] in Px'.
+            unfold cmd_slot in Hs'. unfold pend in Px'. destruct (cl_cmd (dc x')); [discriminate|].
+            pose proof (cnt_in (cid x') (qall (dm_devs st2)) Hin). lia. }
       specialize (IH now st2 (S i) (tl pins) tmo' (acc ++ map (SysDev i) evs) I2).
       specialize (IH (tg_pos _ _ _ _ _ _ _ _ _ SP)).
       destruct (dev_loop ranged_sorted rmatch compress short_circuit n now st2 (S i) (tl pins) tmo' (acc ++ map (SysDev i) evs)) as [[[st3 tmo3] evs3]| | | |]; try contradiction; [|exact Logic.I].
@@ -325,6 +335,14 @@ Section P.
     intros Hk. unfold parse_input. destruct (CP_LINEMAX <=? _).
     - intros H; inversion H; subst. split; [reflexivity|]. destruct (cl_quit _); cbn; exact Hk.
     - rewrite Hk. intros H; inversion H; subst. split; [reflexivity|exact Hk].
+  Qed.
+
+  Lemma parse_busy_store cf store c line cf' store' c' q k :
+    cl_cmd c = Some k -> parse cf store c line = (cf', store', c', q) -> store' = store.
+  Proof.
+    intros Hk. unfold parse_input. destruct (CP_LINEMAX <=? _).
+    - intros H; inversion H; subst. reflexivity.
+    - rewrite Hk. intros H; inversion H; subst. reflexivity.
   Qed.
 
   Lemma valid_com_In com : valid_com com = true -> In com (power_coms ++ query_coms).
@@ -419,17 +437,23 @@ Section P.
         - exact (dp_devs _ I).
         - unfold ids. cbn [dm_clients]. rewrite (upd_nth_same cid _ i x); [exact (dp_nodup _ I)|exact En|exact Hcid].
         - eapply CInv_same_cmd; [exact En|exact Hcid| |exact Kx'|exact (dp_cinv _ I)]. rewrite Hdc, Hk', Ek. reflexivity.
-        - unfold ids. cbn [dm_clients]. rewrite (upd_nth_same cid _ i x); [exact (dp_qseq _ I)|exact En|exact Hcid]. }
+        - unfold ids. cbn [dm_clients]. rewrite (upd_nth_same cid _ i x); [exact (dp_qseq _ I)|exact En|exact Hcid].
+        - rewrite (parse_busy_store _ _ _ _ _ _ _ _ k Ek Ep).
+          refine (SInv_eq _ _ _ _ _ (SInv_upd_client st i x x' En Hcid _ (dp_slots _ I))); try reflexivity.
+          unfold cmd_slot. rewrite Hdc, Hk', Ek. reflexivity. }
       exists st', evs. split; [exact E|]. split; [exact I2|]. destruct S2 as (S1 & S3 & S4). repeat split; auto.
     - (* idle *)
-      destruct (parse_idle expand_str ranged_sorted ranged_plain sorted _ _ _ _ _ _ _ _ Ek Ep) as [(-> & Hn' & _ & _)|(k & al & Hk' & _ & Hpk & Htot & _ & _ & _ & _ & Hq)].
+      destruct (parse_idle expand_str ranged_sorted ranged_plain sorted _ _ _ _ _ _ _ _ Ek Ep) as [(-> & Hn' & Hst' & _)|(k & al & Hk' & Hst' & Hpk & Htot & Hka & _ & _ & _ & Hq)].
       + (* answered at once *)
         match goal with |- context [handle_input _ _ _ _ f ?s i ?a] => destruct (IH s i a) as (st' & evs & E & I2 & S2) end.
         { constructor; cbn [dm_devs dm_clients dm_seq].
           - exact (dp_devs _ I).
           - unfold ids. cbn [dm_clients]. rewrite (upd_nth_same cid _ i x); [exact (dp_nodup _ I)|exact En|exact Hcid].
           - eapply CInv_same_cmd; [exact En|exact Hcid| |exact Kx'|exact (dp_cinv _ I)]. rewrite Hdc, Hn', Ek. reflexivity.
-          - unfold ids. cbn [dm_clients]. rewrite (upd_nth_same cid _ i x); [exact (dp_qseq _ I)|exact En|exact Hcid]. }
+          - unfold ids. cbn [dm_clients]. rewrite (upd_nth_same cid _ i x); [exact (dp_qseq _ I)|exact En|exact Hcid].
+          - rewrite Hst'.
+            refine (SInv_eq _ _ _ _ _ (SInv_upd_client st i x x' En Hcid _ (dp_slots _ I))); try reflexivity.
+            unfold cmd_slot. rewrite Hdc, Hn', Ek. reflexivity. }
         exists st', evs. split; [exact E|]. split; [exact I2|]. destruct S2 as (S1 & S3 & S4). repeat split; auto.
       + (* a command is queued on the devices *)
         assert (Hval : In (k_com k) (power_coms ++ query_coms)).
@@ -452,7 +476,11 @@ Section P.
             pose proof (dp_qseq _ I) as Hsq. rewrite Forall_forall in *. intros z Hz. apply Hsq.
             apply in_app_or in Hz as [Hz|Hz]; [|apply in_or_app; now right].
             destruct (Jc z Hz) as [<-|Hz']; [|apply in_or_app; now left].
-            apply in_or_app. right. apply (in_map cid). eapply nth_error_In; exact En. }
+            apply in_or_app. right. apply (in_map cid). eapply nth_error_In; exact En.
+          - rewrite Hst'. destruct (enq_all_slots (cl_id (dc x)) (cl_tele (dc x)) (length (dm_store st)) _ _ _ Ee (si_cb _ (dp_slots _ I))) as [Ecb Einc].
+            apply (SInv_enqueue st i x x' devs' al (dp_slots _ I) (dp_nodup _ I) En Hcid); auto.
+            + unfold cmd_slot. now rewrite Ek.
+            + unfold cmd_slot. rewrite Hdc, Hk', Hka. reflexivity. }
         exists st', evs. split; [exact E|]. split; [exact I2|]. destruct S2 as (S1 & S3 & S4). cbn [dm_pipe dm_seq dm_devs] in *. repeat split; auto. lia.
   Qed.
 
@@ -468,6 +496,7 @@ Section P.
     - unfold ids, set_clients. cbn [dm_clients]. rewrite (upd_nth_same cid _ i x); [exact (dp_nodup _ I)|exact En|exact Hc].
     - eapply CInv_same_cmd; [exact En|exact Hc|exact Hk|exact Ky|exact (dp_cinv _ I)].
     - unfold ids, set_clients. cbn [dm_clients]. rewrite (upd_nth_same cid _ i x); [exact (dp_qseq _ I)|exact En|exact Hc].
+    - unfold set_clients. apply (SInv_upd_client st i x y En Hc); [unfold cmd_slot; now rewrite Hk|exact (dp_slots _ I)].
   Qed.
 
   Lemma Forall_remove_nth {A} (P : A -> Prop) : forall (l : list A) i, Forall P l -> Forall P (remove_nth l i).
@@ -496,6 +525,7 @@ Section P.
     - unfold CInv. apply Forall_remove_nth. exact (dp_cinv _ I).
     - pose proof (dp_qseq _ I) as H. rewrite Forall_forall in *. intros z Hz. apply H. apply in_app_or in Hz as [Hz|Hz]; apply in_or_app; [now left|right].
       unfold ids, set_clients in *. cbn [dm_clients] in Hz. rewrite remove_nth_map in Hz. eapply incl_remove_nth; exact Hz.
+    - unfold set_clients. apply SInv_remove. exact (dp_slots _ I).
   Qed.
 
   (* what a read / a write on the descriptor does to the record keeps it well formed *)
@@ -593,7 +623,9 @@ Section P.
       - rewrite Forall_forall. intros z Hz. unfold ids in Hz. cbn [dm_clients] in Hz. rewrite map_app in Hz. cbn [map] in Hz.
         rewrite app_assoc in Hz. apply in_app_or in Hz as [Hz|[<-|[]]].
         + specialize (Hq z Hz). lia.
-        + unfold cid. cbn. lia. }
+        + unfold cid. cbn. lia.
+      - apply SInv_accept; [exact (dp_slots _ I)|reflexivity|].
+        intros Hin. unfold cid in Hin. cbn in Hin. assert (1 <= dm_seq st < dm_seq st) by (apply Hq; apply in_or_app; now left). lia. }
     destruct sa as [sta e1]. cbn [fst] in Ha. destruct Ha as (Ia & Na & La & Sa).
     destruct (cli_loop_inv (pad_cins (length (dm_clients sta)) (r_cli r)) sta 0 e1 Ia Na) as (stb & e2 & El & Ib & Sb & Nb). rewrite El.
     destruct Sb as (B1 & B2 & B3).
@@ -631,30 +663,43 @@ Section P.
   (* start-up: no client yet, devices as the parser leaves them *)
   Definition boot (st : daemon) : Prop :=
     dm_clients st = [] /\ dm_seq st = 1 /\
-    Forall (fun d => DInvRG compress d /\ dv_cstate d = DEV_NOT_CONNECTED /\ queued d = []) (dm_devs st).
+    Forall (fun d => DInvRG compress d /\ dv_cstate d = DEV_NOT_CONNECTED /\ queued d = [] /\ dv_acts d = []) (dm_devs st).
 
   Lemma init_loop_inv now : forall devs plans i,
-    Forall (fun d => DInvRG compress d /\ dv_cstate d = DEV_NOT_CONNECTED /\ queued d = []) devs ->
-    exists devs' evs, init_loop now devs plans i = Ok (devs', evs) /\ DevsInv devs' /\ qall devs' = [] /\ length devs' = length devs.
+    Forall (fun d => DInvRG compress d /\ dv_cstate d = DEV_NOT_CONNECTED /\ queued d = [] /\ dv_acts d = []) devs ->
+    exists devs' evs, init_loop now devs plans i = Ok (devs', evs) /\ DevsInv devs' /\ qall devs' = [] /\ length devs' = length devs /\
+                      Forall ArgsCb devs' /\ aslots devs' = [].
   Proof.
     induction devs as [|d r IH]; intros plans i H; cbn [init_loop].
     - exists [], []. repeat split; auto.
-    - inversion H as [|? ? ([I Hrc] & Hc & Hq) Hr]; subst.
-      destruct (connect_invG compress now d (hd [] plans) I Hc) as (d1 & pl & E1 & _ & I1 & _ & Q1 & _ & R1 & _).
-      rewrite E1. destruct (IH (tl plans) (S i) Hr) as (r' & e2 & E2 & H2 & Q2 & N2). rewrite E2.
+    - inversion H as [|? ? ([I Hrc] & Hc & Hq & Ha) Hr]; subst.
+      destruct (connect_invG compress now d (hd [] plans) I Hc) as (d1 & pl & E1 & _ & I1 & _ & Q1 & _ & R1 & _ & _ & A1 & A2).
+      rewrite E1. destruct (IH (tl plans) (S i) Hr) as (r' & e2 & E2 & H2 & Q2 & N2 & C2 & S2). rewrite E2.
+      assert (Hd1 : ArgsCb d1 /\ dslots d1 = []).
+      { destruct (Z.eq_dec (dv_cstate d1) DEV_CONNECTED) as [Ec|Ec].
+        - destruct (A1 Ec) as (s & _ & Eacts). unfold ArgsCb, dslots. rewrite Eacts, Ha. split; [constructor; [intros X; cbn in X; congruence|constructor]|reflexivity].
+        - unfold ArgsCb, dslots. rewrite (A2 Ec), Ha. split; [constructor|reflexivity]. }
+      destruct Hd1 as [Hd1 Hd2].
       eexists _, _. split; [reflexivity|]. split; [constructor; [split; [exact I1|lia]|exact H2]|].
-      split; [unfold qall in *; cbn [flat_map]; now rewrite Q1, Hq, Q2|cbn; now rewrite N2].
+      split; [unfold qall in *; cbn [flat_map]; now rewrite Q1, Hq, Q2|]. split; [cbn; now rewrite N2|].
+      split; [constructor; assumption|]. unfold aslots in *. cbn [flat_map]. now rewrite Hd2, S2.
   Qed.
 
   Theorem dinit_inv st now plans : boot st ->
     exists st1 o, dinit st now plans = Ok (st1, o) /\ DPInv st1 /\ dm_seq st1 = 1 /\ dm_pipe st1 = dm_pipe st /\ dm_clients st1 = [] /\
                   length (dm_devs st1) = length (dm_devs st).
   Proof.
-    intros (Hc & Hs & Hd). unfold dinit. destruct (init_loop_inv now (dm_devs st) plans 0 Hd) as (devs' & evs & E & H1 & H2 & H3).
-    rewrite E. eexists _, _. split; [reflexivity|]. cbn [dm_seq dm_pipe dm_clients dm_devs]. repeat split; auto.
+    intros (Hc & Hs & Hd). unfold dinit. destruct (init_loop_inv now (dm_devs st) plans 0 Hd) as (devs' & evs & E & H1 & H2 & H3 & H4 & H5).
+    rewrite E. eexists _, _. split; [reflexivity|]. cbn [dm_seq dm_pipe dm_clients dm_devs]. split; [|repeat split; auto]. constructor.
+    - exact H1.
     - unfold ids. cbn [dm_clients]. rewrite Hc. constructor.
     - cbn [dm_clients]. rewrite Hc. constructor.
     - cbn [dm_devs dm_seq]. unfold ids. cbn [dm_clients]. rewrite H2, Hc. constructor.
+    - constructor; cbn [dm_devs dm_clients dm_store].
+      + exact H4.
+      + rewrite H5. intros c s [].
+      + rewrite Hc. intros x s [].
+      + rewrite Hc. intros x y s [].
   Qed.
 
   (* the statements C04 / C02 / C06 / C07 / C11 quote: from start-up, over every history of passes *)
@@ -693,6 +738,23 @@ Section P.
   Proof.
     intros [_ (toks & Ho & Ht & Hs)] Hb. destruct (Hs Hb) as [(st & q & R & [_ A] & _) Hsent].
     exists toks, st. split; [rewrite <- Hsent; exact Ho|]. split; [exact R|]. split; [exact A|exact Ht].
+  Qed.
+
+  (* the shared result lists, from start-up over every history (Proofs/DaemonSlots.v): see SInv *)
+  Theorem daemon_result_lists st now plans rs : boot st -> Z.of_nat (length rs) < INT_MAX - 1 ->
+    exists st1 o, dinit st now plans = Ok (st1, o) /\
+      match drun expand_str ranged_sorted ranged_plain sorted rmatch compress short_circuit st1 rs [] with
+      | Ok (st', outs) => SInv st'
+      | Hang _ => True
+      | _ => False
+      end.
+  Proof.
+    intros Hb Hn. destruct (dinit_inv st now plans Hb) as (st1 & o & E & I1 & S1 & P1 & C1 & _).
+    exists st1, o. split; [exact E|].
+    assert (N1 : NL st1) by (intros p x Hx; rewrite C1 in Hx; destruct p; discriminate Hx).
+    pose proof (drun_inv rs st1 [] I1 N1 ltac:(lia) ltac:(rewrite S1; unfold INT_MAX in *; lia)) as H.
+    destruct (drun expand_str ranged_sorted ranged_plain sorted rmatch compress short_circuit st1 rs []) as [[st' outs]| | | |]; try contradiction; [|exact Logic.I].
+    destruct H as (I' & _). exact (dp_slots _ I').
   Qed.
 
   Theorem daemon_streams st now plans rs : boot st -> Z.of_nat (length rs) < INT_MAX - 1 ->
